@@ -280,21 +280,89 @@ type reqSpec struct {
 	query string
 	op    string
 	sub   string // subMode.kind
+	vars  map[string]interface{}
+}
+
+// Directives on the root field(s). The specification's rule: a field is selected iff it is not skipped
+// (@skip(if: true)) and it is included (no @include(if: false)); both directives may be present.
+// Code: "s"/"i" followed by T/F for @skip / @include on `tick` (either or both, e.g. "sFiT"); suffix "v" = the
+// conditions come from variables; prefix "b:" / "a:" = a second root field `tock` that is EXCLUDED by directives of its
+// own stands before / after `tick` (it then must not count as a root field, nor be subscribed to).
+func dirDocument(code string) (query string, vars map[string]interface{}, included bool) {
+	companion := ""
+	if strings.HasPrefix(code, "b:") || strings.HasPrefix(code, "a:") {
+		companion = code[:1]
+		code = code[2:]
+	}
+	byVar := strings.HasSuffix(code, "v")
+	code = strings.TrimSuffix(code, "v")
+	included = true
+	defs, dirs := []string{}, ""
+	vars = map[string]interface{}{}
+	for i := 0; i+1 < len(code); i += 2 {
+		val := code[i+1] == 'T'
+		name, v := "skip", "sk"
+		if code[i] == 'i' {
+			name, v = "include", "inc"
+			if !val {
+				included = false
+			}
+		} else if val {
+			included = false
+		}
+		if byVar {
+			defs = append(defs, "$"+v+": Boolean!")
+			vars[v] = val
+			dirs += fmt.Sprintf(" @%s(if: $%s)", name, v)
+		} else {
+			dirs += fmt.Sprintf(" @%s(if: %v)", name, val)
+		}
+	}
+	other := ""
+	if companion != "" {
+		// excluded in three ways, chosen by the shape of the main field's directives
+		switch len(code) % 3 {
+		case 0:
+			other = "tock @skip(if: true) { n }"
+		case 1:
+			other = "tock @include(if: false) { n }"
+		default:
+			if byVar {
+				defs = append(defs, "$no: Boolean!")
+				vars["no"] = false
+				other = "tock @skip(if: false) @include(if: $no) { n }"
+			} else {
+				other = "tock @skip(if: false) @include(if: false) { n }"
+			}
+		}
+	}
+	head := "subscription S"
+	if len(defs) > 0 {
+		head += "(" + strings.Join(defs, ", ") + ")"
+	}
+	body := "tick" + dirs + " { n twice must }"
+	switch companion {
+	case "b":
+		body = other + " " + body
+	case "a":
+		body = body + " " + other
+	}
+	return head + " { " + body + " }", vars, included
 }
 
 var reqSpecs = map[string]reqSpec{
-	"stream":        {"stream", streamQuery, "", "stream"},
-	"parseErr":      {"invalid", `subscription S { tick { n `, "", "stream"},
-	"validationErr": {"invalid", `subscription S { tick { nope } }`, "", "stream"},
-	"subErr":        {"oneShot", streamQuery, "", "subErr"},
-	"subNil":        {"oneShot", streamQuery, "", "subNil"},
-	"subPanicErr":   {"oneShot", streamQuery, "", "subPanicErr"},
-	"subPanicStr":   {"oneShot", streamQuery, "", "subPanicStr"},
-	"noSubscribeFn": {"oneShot", `subscription S { nosub }`, "", "stream"},
-	"unknownOp":     {"oneShot", streamQuery, "Other", "stream"},
-	"emptySel":      {"oneShot", `subscription S { tick @skip(if: true) { n } }`, "", "stream"},
-	"missingVar":    {"oneShot", `subscription S($s: Boolean!) { tick @skip(if: $s) { n } }`, "", "stream"},
-	"value":         {"oneShot", streamQuery, "", "value"},
+	"stream":        {"stream", streamQuery, "", "stream", nil},
+	"parseErr":      {"invalid", `subscription S { tick { n `, "", "stream", nil},
+	"validationErr": {"invalid", `subscription S { tick { nope } }`, "", "stream", nil},
+	"subErr":        {"oneShot", streamQuery, "", "subErr", nil},
+	"subNil":        {"oneShot", streamQuery, "", "subNil", nil},
+	"subPanicErr":   {"oneShot", streamQuery, "", "subPanicErr", nil},
+	"subPanicStr":   {"oneShot", streamQuery, "", "subPanicStr", nil},
+	"noSubscribeFn": {"oneShot", `subscription S { nosub }`, "", "stream", nil},
+	"unknownOp":     {"oneShot", streamQuery, "Other", "stream", nil},
+	"emptySel":      {"oneShot", `subscription S { tick @skip(if: true) { n } }`, "", "stream", nil},
+	"missingVar":    {"oneShot", `subscription S($s: Boolean!) { tick @skip(if: $s) { n } }`, "", "stream", nil},
+	"value":         {"oneShot", streamQuery, "", "value", nil},
 }
 
 // ---------------------------------------------------------------- canonical results
@@ -449,6 +517,7 @@ type caseT struct {
 	Flip     bool     `json:"flip"`     // R: let the cancelling goroutine run before the receive
 	Vars     int      `json:"vars"`     // index into varCases (0 = the document without variables)
 	Alias    string   `json:"alias"`    // alias of the root field ("" = none): fresh, or the name of another subscription field
+	Dir      string   `json:"dir"`      // directives on the root field(s), see dirDocument ("" = none)
 }
 
 type observation struct {
@@ -518,7 +587,7 @@ func (r *runner) start() {
 	if len(r.c.Events) > 0 {
 		cur.val = evT{K: r.c.Events[0][0], N: r.c.Events[0][1]}
 	}
-	query, vars := r.spec.query, map[string]interface{}(nil)
+	query, vars := r.spec.query, r.spec.vars
 	if r.c.Vars > 0 && r.spec.model == "stream" {
 		query, vars = varCases[r.c.Vars].query, varCases[r.c.Vars].vars
 		cur.selected = "paint"
@@ -918,6 +987,11 @@ func (r *runner) settle(baseline int) {
 		<-r.offer.done
 		r.offer = nil
 	}
+	if r.obs.Fault == "" && (r.done || r.obs.Closed) {
+		// The consumer may have seen the close a moment before the goroutine has finished returning (the close is
+		// its last deferred call): bounded settle, like for the executor goroutines below.
+		waitForwarder(true)
+	}
 	subs, _ := subGoroutines()
 	r.obs.SubAlive = len(subs)
 	if r.obs.Fault == "" && len(subs) == 0 && r.started && !r.obs.Closed {
@@ -993,13 +1067,30 @@ func main() {
 	}
 	defer drv.Close()
 	schema := buildSchema()
-	run.Res.Rule = "schedules = sequences of harness intents (P produce next event, O offer next event in the background, D consumer receives, R receive racing with cancel, C cancel, X close source, W wait for the forwarder to leave, S consumer stops, Z consumer pauses) enumerated depth-first under the model's enabledness, then a finale (complete: deliver/produce everything, close the source; or cancel: cancel and give no consumer help); requests: stream with 0..4 events of 11 payload kinds (ok, root resolver fails, nullable leaf fails, non-null leaf null, and the closure look-alikes nil, empty map, typed nil pointer, false, 0, \"\", empty slice — each also swept over every position of sequences of 1..4 events); a quarter of the stream cases (plus a sweep) subscribe with variables whose coercion is not idempotent (enum with int internal values, enum whose internal values are names of other values, custom scalar that rewrites its value, input object and lists of these, defaults, provided values, literals) and compare every delivered result with graphql.Execute of the same selection on the event with the same raw variables, cross-checked by a hand-computed expectation; a quarter of the stream cases (plus a sweep) give the single root field an alias — fresh, or the name of another subscription field (tock, paint, nosub, tick), whose Subscribe resolver hands out a decoy stream — and the results must be keyed by the alias and follow the SELECTED field's stream, 9 one-shot failures inside the goroutine, non-channel value, parse and validation errors; entries graphql.Subscribe and ExecuteSubscription; the real run is recorded as model actions and validated by the compiled Lean model; non-trivial = the recorded run has >= 3 model actions (>= 1 for one-shot requests); distinct by (request, entry, events, intents, consumer, finale)"
+	run.Res.Rule = "schedules = sequences of harness intents (P produce next event, O offer next event in the background, D consumer receives, R receive racing with cancel, C cancel, X close source, W wait for the forwarder to leave, S consumer stops, Z consumer pauses) enumerated depth-first under the model's enabledness, then a finale (complete: deliver/produce everything, close the source; or cancel: cancel and give no consumer help); requests: stream with 0..4 events of 11 payload kinds (ok, root resolver fails, nullable leaf fails, non-null leaf null, and the closure look-alikes nil, empty map, typed nil pointer, false, 0, \"\", empty slice — each also swept over every position of sequences of 1..4 events); a quarter of the stream cases (plus a sweep) subscribe with variables whose coercion is not idempotent (enum with int internal values, enum whose internal values are names of other values, custom scalar that rewrites its value, input object and lists of these, defaults, provided values, literals) and compare every delivered result with graphql.Execute of the same selection on the event with the same raw variables, cross-checked by a hand-computed expectation; a quarter of the stream cases (plus a sweep) give the single root field an alias — fresh, or the name of another subscription field (tock, paint, nosub, tick), whose Subscribe resolver hands out a decoy stream — and the results must be keyed by the alias and follow the SELECTED field's stream; a sweep puts @skip / @include / both (all truth combinations, literal and variable-driven) on the root field, alone and next to a second root field excluded by its own directives: the field is selected iff not skipped and included, otherwise exactly one error result, 9 one-shot failures inside the goroutine, non-channel value, parse and validation errors; entries graphql.Subscribe and ExecuteSubscription; the real run is recorded as model actions and validated by the compiled Lean model; non-trivial = the recorded run has >= 3 model actions (>= 1 for one-shot requests); distinct by (request, entry, events, intents, consumer, finale)"
 
 	one := func(c caseT) {
 		spec, okSpec := reqSpecs[c.Req]
 		if !okSpec {
 			run.CheckError("unknown request kind " + c.Req)
 			return
+		}
+		if c.Dir != "" && c.Req == "stream" && c.Vars == 0 && c.Alias == "" {
+			q, vars, included := dirDocument(c.Dir)
+			spec.query, spec.vars = q, vars
+			if !included {
+				// no root field is selected: exactly one error result, then closed. Whether the request is turned
+				// down by validation (buffered closed channel) or inside the goroutine is the library's choice.
+				spec.model = "oneShot"
+				doc, err := parser.Parse(parser.ParseParams{Source: q})
+				if err != nil {
+					run.CheckError("directive document does not parse: " + q)
+					return
+				}
+				if !graphql.ValidateDocument(&schema, doc, nil).IsValid {
+					spec.model = "invalid"
+				}
+			}
 		}
 		// subscriptions with variables: the reference result of every event = the same selection executed by
 		// graphql.Execute on the event as root value with the same raw variables (what the property demands of
@@ -1145,6 +1236,13 @@ func main() {
 			}
 			replay["document"] = aliased(map[bool]string{false: streamQuery, true: varCases[c.Vars].query}[c.Vars > 0], map[bool]string{false: "tick", true: "paint"}[c.Vars > 0], c.Alias)
 		}
+		if c.Dir != "" {
+			run.Tag("root-directives:" + map[bool]string{true: "field-selected", false: "field-excluded"}[spec.model == "stream"])
+			if strings.Contains(c.Dir, ":") {
+				run.Tag("root-directives:with-excluded-second-root-field")
+			}
+			replay["document"], replay["variables"] = spec.query, spec.vars
+		}
 		if c.Vars > 0 {
 			run.Tag(fmt.Sprintf("variables:case-%d", c.Vars))
 			replay["query"], replay["variables"] = varCases[c.Vars].query, varCases[c.Vars].vars
@@ -1177,6 +1275,9 @@ func main() {
 		}
 		if bad != "" && c.Alias != "" && spec.model == "stream" {
 			bad += fmt.Sprintf("; the root field carries the alias %q (document in the replay): the subscription must follow the stream of the SELECTED field %q, whose Subscribe resolver alone hands out the source channel", c.Alias, cur.selected)
+		}
+		if bad != "" && c.Dir != "" {
+			bad += fmt.Sprintf("; document %s variables %s: a root field is selected iff it is not skipped and it is included — here `tick` is %s", spec.query, hx.Canon(spec.vars), map[bool]string{true: "selected (its events must be delivered)", false: "excluded (exactly one error result, no subscription)"}[spec.model == "stream"])
 		}
 		if bad != "" {
 			if strings.HasPrefix(bad, "harness fault") {
@@ -1346,6 +1447,29 @@ func main() {
 						ev[pos] = [2]int{kind, 0}
 						one(caseT{Req: "stream", Entry: entry, Events: ev, Intents: v.intents, Consumer: v.consumer, Finale: v.finale})
 						run.Tag("closure-lookalike-payload-sweep")
+					}
+				}
+			}
+		}
+	}
+	// @skip / @include on the root field: each alone and both, all truth combinations, literal and variable-driven,
+	// alone and next to a second root field that its own directives exclude
+	for _, comp := range []string{"", "b:", "a:"} {
+		for _, d := range []string{"sT", "sF", "iT", "iF", "sTiT", "sTiF", "sFiT", "sFiF", "iTsF", "iFsF"} {
+			for _, byVar := range []string{"", "v"} {
+				code := comp + d + byVar
+				_, _, included := dirDocument(code)
+				pats := []struct{ consumer, intents, finale string }{{"slow", "D", "complete"}, {"slow", "C", "cancel"}, {"stopped", "S", "cancel"}}
+				if included {
+					pats = []struct{ consumer, intents, finale string }{{"prompt", "", "complete"}, {"slow", "PDP", "cancel"}, {"slow", "PDPDX", "complete"}}
+				}
+				for _, v := range pats {
+					for _, entry := range []string{"subscribe", "execute"} {
+						if run.TooManyViolations() {
+							break
+						}
+						one(caseT{Req: "stream", Entry: entry, Events: [][2]int{{0, 41}, {2, 42}}, Intents: v.intents, Consumer: v.consumer, Finale: v.finale, Dir: code})
+						run.Tag("root-directives-sweep")
 					}
 				}
 			}
